@@ -37,7 +37,7 @@ def w_points(spec, j):
     pts = {abs(p) for p in pts}
     out = sorted(pts | {-p for p in pts})
     if n == "IndicatorBox":
-        out = [p for p in out if 0 <= p <= a]
+        out = [p for p in out if p <= a]          # w > alpha is not a positivity violation: not judged
     return out
 
 
@@ -84,7 +84,7 @@ def eval_scalar(p, spec, j, wv, gv, P):
     lo, hi = RP.bounds(spec)
     feasible = lo <= wv <= hi
     exp = RP.dist_interval(-gv, RP.subdiff_interval(spec, wv, j))
-    if not feasible and (spec.get("positive") or name == "PositiveConstraint"):
+    if not feasible and (spec.get("positive") or name in ("PositiveConstraint", "IndicatorBox")):
         if got != np.inf:
             out.append(("not_inf_at_infeasible", got, "inf"))
     elif feasible and not close(got, exp, abs(gv)):
